@@ -3781,3 +3781,59 @@ def gen_Marshal(repo):
         L.append("def cpp%s : List CParam := %s\n" % (tag, lean_list(["⟨.%s, %s⟩" % (t, lean_str(nm)) for t, nm in ps])))
     L.append("end Strengths.Gen.Marshal")
     return "\n".join(L) + "\n"
+
+
+# =============================================================================================
+# CppNumeric: where the C++ engine leaves double / unbounded-integer arithmetic (the model's numbers are exact
+# rationals and unbounded integers): `int` variables initialised from expressions, casts, single-precision tokens,
+# integer-literal divisions
+# =============================================================================================
+@group
+def gen_CppNumeric(repo):
+    files = ["engine.cpp", "SimulationAlgorithm3DBase.hpp", "SimulationAlgorithmGraphBase.hpp", "Euler3D.hpp", "EulerGraph.hpp",
+             "TauLeap3D.hpp", "TauLeapGraph.hpp", "Gillespie3D.hpp", "GillespieGraph.hpp"]
+    inits, casts, floats, litdiv, narrow = [], [], [], [], []
+    ident = re.compile(r"[A-Za-z_]\w*")
+    for f in files:
+        txt = _cpp(repo, f)
+        txt = re.sub(r"\"(?:\\.|[^\"\\])*\"", '""', txt)       # string literals out
+        # `for(int i=0; …)` headers are loop counters: recorded separately (name = start value)
+        body = re.sub(r"for\s*\(\s*(?:int|size_t|unsigned|long)\s+\w+\s*=\s*[^;]*;", "for(;", txt)
+        for m in re.finditer(r"(?<![\w:<])(int|long|short|unsigned(?:\s+int)?|size_t|float)\s+(\w+)\s*=\s*([^;{}]*);", body):
+            ty, name, rhs = m.group(1), m.group(2), re.sub(r"\s+", "", m.group(3))
+            ids = sorted(set(ident.findall(re.sub(r"static_cast<[^>]*>", "", rhs))))
+            inits.append((f, ty, name, rhs, ids, bool(re.search(r"\d\.\d|\d\.(?!\w)|\de[-+]?\d", rhs))))
+        for m in re.finditer(r"static_cast\s*<\s*([^>]+?)\s*>\s*\(", txt):
+            # argument up to the matching parenthesis
+            i, depth = m.end(), 1
+            while i < len(txt) and depth:
+                depth += {"(": 1, ")": -1}.get(txt[i], 0)
+                i += 1
+            casts.append((f, re.sub(r"\s+", "", m.group(1)), re.sub(r"\s+", "", txt[m.end():i - 1])))
+        for m in re.finditer(r"\((?:int|long|float|short|unsigned)\)\s*[\w(]", txt):
+            casts.append((f, "c-style", re.sub(r"\s+", "", m.group(0))))
+        for m in re.finditer(r"\bfloat\b|(?<![\w.])\d+\.?\d*(?:e[-+]?\d+)?f\b|(?<![\w.])\.\d+f\b", txt):
+            floats.append((f, m.group(0)))
+        for m in re.finditer(r"(?<![\w.])(\d+)\s*/\s*(\d+)(?![\w.])", txt):
+            litdiv.append((f, re.sub(r"\s+", "", m.group(0))))
+        for m in re.finditer(r"numeric_limits|\bepsilon\b|\bFLT_|\bDBL_EPSILON\b|\bINT_MAX\b|\blround\b|\blrint\b|\b(?:std::)?round\s*\(|\btrunc\s*\(", txt):
+            narrow.append((f, re.sub(r"\s+", "", m.group(0))))
+    if not inits or not casts:
+        raise AnchorLost("engine sources: no int initialisations / casts found (pattern)")
+    L = ["namespace Strengths.Gen.CppNumeric\n",
+         "structure IntInit where\n  file : String\n  ty : String\n  name : String\n  rhs : String\n  idents : List String\n  hasRealLiteral : Bool\n  deriving DecidableEq, Repr\n",
+         "/-- every `int|long|short|unsigned|size_t|float NAME = RHS;` outside `for` headers, with the identifiers of RHS (cast type names removed) -/",
+         "def intInits : List IntInit := %s\n" % lean_list(
+             ["⟨%s, %s, %s, %s, %s, %s⟩" % (lean_str(f), lean_str(ty), lean_str(nm), lean_str(rhs), lean_list([lean_str(i) for i in ids]),
+                                         "true" if rl else "false") for f, ty, nm, rhs, ids, rl in inits]),
+         "/-- every `static_cast<T>(ARG)` and C-style narrowing cast: (file, T, ARG) -/",
+         "def casts : List (String × String × String) := %s\n" % lean_list(
+             ["(%s, %s, %s)" % (lean_str(f), lean_str(t), lean_str(a)) for f, t, a in casts]),
+         "/-- `float` keywords and `f`-suffixed literals -/",
+         "def floatTokens : List (String × String) := %s\n" % lean_list(["(%s, %s)" % (lean_str(f), lean_str(t)) for f, t in floats]),
+         "/-- integer literal divided by integer literal (`1/3` is 0 in C++) -/",
+         "def intLiteralDivisions : List (String × String) := %s\n" % lean_list(["(%s, %s)" % (lean_str(f), lean_str(t)) for f, t in litdiv]),
+         "/-- tolerance / rounding vocabulary (`numeric_limits`, `epsilon`, `round(`, `trunc(`, …) -/",
+         "def toleranceTokens : List (String × String) := %s\n" % lean_list(["(%s, %s)" % (lean_str(f), lean_str(t)) for f, t in narrow]),
+         "end Strengths.Gen.CppNumeric"]
+    return "\n".join(L) + "\n"
